@@ -1039,7 +1039,7 @@ fn main() {
         let msg = info.to_string().replace('\n', " ");
         tr(format!("panic {msg}"));
     }));
-    start_watchdog(15, || {
+    start_watchdog(45, || {
         let out = std::io::stdout();
         let mut out = out.lock();
         for l in verif_harness::trace::take() {
@@ -1047,7 +1047,7 @@ fn main() {
         }
         let _ = writeln!(out, "hang watchdog");
         let _ = out.flush();
-        eprintln!("watchdog: no progress for 15 s");
+        eprintln!("watchdog: no progress for 45 s");
     });
     warm_up();
     let mut out = std::io::BufWriter::new(std::io::stdout());
